@@ -316,6 +316,11 @@ impl<S: Read + Write> Client<S> {
 
     }
 
+    /// Bytes already received that the next read will not wait for
+    pub fn pending(&self) -> usize {
+        self.x224.pending()
+    }
+
     /// Send a close event to server
     pub fn shutdown(&mut self) -> RdpResult<()> {
         self.x224.write(trame![
